@@ -789,3 +789,57 @@ def hex_deck(seed):
     d.cells = dict(sorted(d.cells.items()))
     d.lattice_opts = []
     return d
+
+
+# ------------------------------------------------------------------ directed decks
+
+N_DIRECTED = 7
+
+
+def directed_deck(k):
+    """Small hand-made decks for input shapes that random generation meets too rarely to rely on (each was needed by
+    at least one seeded change): k is taken modulo N_DIRECTED."""
+    k %= N_DIRECTED
+    d = Deck(f'directed deck {k}')
+    d.add_surf(Surf(1, 'so', [1.0]))
+    d.add_surf(Surf(2, 'so', [2.0]))
+    d.add_surf(Surf(3, 'px', [0.25]))
+    mats = [1, 2, 4]
+    rhos = ['-2.70', '-1.0', '0.05']
+    plane_hi, plane_lo = ('s', 3), ('s', -3)
+    if k == 0:      # mass fractions with an atom density: warned, empty composition, file still well-formed
+        mats, rhos = [3, 2, 4], ['0.05', '-1.0', '0.05']
+    elif k == 1:    # same material, densities that agree to six significant digits only
+        mats, rhos = [1, 2, 2], ['-2.70', '-0.9982071', '-0.9982074']
+    elif k == 2:    # same material, one density in two spellings: one composition
+        mats, rhos = [1, 2, 2], ['-2.70', '-1.0', '-1.00']
+    elif k == 3:    # unflagged duplicate with a larger number declared before the flagged surface it duplicates
+        d.surfs[3].bc = '*'
+        d.surfs = dict([(7, Surf(7, 'px', [0.25]))] + list(d.surfs.items()))
+        plane_hi = ('s', 7)
+    elif k == 4:    # the same, white boundary, duplicate used with the other sense
+        d.surfs[3].bc = '+'
+        d.surfs = dict([(9, Surf(9, 'px', [0.25]))] + list(d.surfs.items()))
+        plane_lo = ('s', -9)
+    elif k == 5:    # flagged plane that coincides with a facet of a macrobody declared before it
+        d.surfs.pop(1)
+        d.add_surf(Surf(1, 'rpp', [-0.75, 0.5, -1.0, 0.25, -0.5, 0.5]))
+        d.surfs[3] = Surf(3, 'py', [0.25], None, '*')
+        d.surfs = dict(sorted(d.surfs.items(), key=lambda kv: (kv[0] == 3, kv[0])))
+    if k == 6:      # importances inside a filling universe differ from the container's (zero / non-zero both ways)
+        d.add_surf(Surf(4, 'pz', [0.0]))
+        d.add_cell(Cell(1, 0, None, ('s', -1), imp=1, fill=5))
+        d.add_cell(Cell(2, 0, None, ('*', ('s', 1), ('*', ('s', -2), plane_lo)), imp=0, fill=5))
+        d.add_cell(Cell(3, 1, '-2.70', ('*', ('s', 1), ('*', ('s', -2), plane_hi)), imp=1))
+        d.add_cell(Cell(4, 0, None, ('s', 2), imp=0))
+        d.add_cell(Cell(50, 2, '-1.0', ('s', -4), imp=0, universe=5))
+        d.add_cell(Cell(51, 4, '0.05', ('s', 4), imp=2, universe=5))
+        d.materials.update({1: MATS[1], 2: MATS[2], 4: MATS[4]})
+        return d
+    d.add_cell(Cell(1, mats[0], rhos[0], ('s', -1)))
+    d.add_cell(Cell(2, mats[1], rhos[1], ('*', ('s', 1), ('*', ('s', -2), plane_lo))))
+    d.add_cell(Cell(3, mats[2], rhos[2], ('*', ('s', 1), ('*', ('s', -2), plane_hi))))
+    d.add_cell(Cell(4, 0, None, ('s', 2), imp=0))
+    for m in mats:
+        d.materials[m] = MATS[m]
+    return d
